@@ -10,9 +10,15 @@ package tools
 //      the kernel aborts the call, so the state is exactly "k-1 calls completed").
 //      Which call was really hit is read from the injected run's own trace,
 //      never assumed; an injection that did not fire is retried, never counted.
-//   3. Oracle: the message path holds exactly the original or exactly the
-//      formatted bytes; then an uninjected run is made and afterwards the
-//      directory holds only the message file(s), with the formatted bytes.
+//   3. Oracle after the kill: the message path (resolved through a link) holds
+//      exactly the original or exactly the formatted bytes.
+//   4. Crash-then-rerun histories: from the state the kill left, the message
+//      file is left alone / replaced by shorter content / replaced by longer
+//      content, langlint runs again to completion (uninjected): the path must hold
+//      exactly Format(content before that run) (reference = the real binary on a
+//      pristine directory), the directory must hold its initial names only (no
+//      temporary or backup file, stale ones included; unrelated files untouched,
+//      byte for byte), and a third run must report no change.
 import (
 	"bytes"
 	"fmt"
@@ -25,6 +31,7 @@ import (
 	"strings"
 	"sync"
 	"sync/atomic"
+	"syscall"
 	"testing"
 
 	"github.com/tucats/ego/internal/verifh/vh"
@@ -48,11 +55,17 @@ type scall struct {
 
 type c36Shape struct {
 	Name     string
-	Files    []string // base names of message files in the directory
+	Files    []string // base names of the message files in the directory
 	Content  [][]byte
 	Mode     os.FileMode
+	Link     string                    // "" | symlink-same-dir | symlink-other-dir | hardlink : how the message path reaches its bytes
+	Extra    map[string][]byte         // unrelated files (named like temporaries of OTHER tools/files): must keep their bytes
+	Stale    map[string][]byte         // leftovers of an earlier interrupted run of THIS file: must be gone after a successful run
 	Args     func(dir string) []string // langlint arguments
 	Relative bool                      // cwd = dir and relative argument
+	CutWrite bool                      // the traced runs are made under RLIMIT_FSIZE = half the formatted size: the temp file is written by
+	//                                    two write calls (short write, then EFBIG), so a kill BETWEEN them leaves a partially written file
+	fsize int64
 }
 
 var (
@@ -103,6 +116,10 @@ func c36Role(p, cwd, dir string, files []string) string {
 		switch {
 		case base == f:
 			return "T"
+		case base == f+".real":
+			return "T.real" // the regular file a symbolic-link message path points to
+		case base == f+".hardlink":
+			return "T.hard" // second name of a hard-linked message file
 		case base == f+".langlint-bak":
 			return "T.bak"
 		case strings.HasPrefix(base, f+".langlint-"):
@@ -295,9 +312,14 @@ type c36Run struct {
 	out    string
 }
 
+func c36StoreDir(dir string) string { return dir + "-store" }
+
+// c36Setup builds the directory of a shape from scratch.
 func c36Setup(dir string, sh c36Shape) error {
-	_ = os.Chmod(dir, 0o755)
-	_ = os.RemoveAll(dir)
+	for _, d := range []string{dir, c36StoreDir(dir)} {
+		_ = os.Chmod(d, 0o755)
+		_ = os.RemoveAll(d)
+	}
 
 	if err := os.MkdirAll(dir, 0o755); err != nil {
 		return err
@@ -305,12 +327,165 @@ func c36Setup(dir string, sh c36Shape) error {
 
 	for i, f := range sh.Files {
 		p := filepath.Join(dir, f)
-		if err := os.WriteFile(p, sh.Content[i], 0o644); err != nil {
+		realPath := p
+
+		switch sh.Link {
+		case "symlink-same-dir":
+			realPath = p + ".real"
+			if err := os.Symlink(f+".real", p); err != nil {
+				return err
+			}
+		case "symlink-other-dir":
+			if err := os.MkdirAll(c36StoreDir(dir), 0o755); err != nil {
+				return err
+			}
+
+			realPath = filepath.Join(c36StoreDir(dir), f)
+			if err := os.Symlink(filepath.Join("..", filepath.Base(c36StoreDir(dir)), f), p); err != nil {
+				return err
+			}
+		}
+
+		if err := os.WriteFile(realPath, sh.Content[i], 0o644); err != nil {
 			return err
 		}
 
-		if err := os.Chmod(p, sh.Mode); err != nil {
+		if err := os.Chmod(realPath, sh.Mode); err != nil {
 			return err
+		}
+
+		if sh.Link == "hardlink" {
+			if err := os.Link(p, p+".hardlink"); err != nil {
+				return err
+			}
+		}
+	}
+
+	for _, m := range []map[string][]byte{sh.Extra, sh.Stale} {
+		for name, b := range m {
+			if err := os.WriteFile(filepath.Join(dir, name), b, 0o644); err != nil {
+				return err
+			}
+		}
+	}
+
+	return nil
+}
+
+// c36Entry / c36Snap: an in-memory copy of the shape's directories, so that several histories can start from the same post-crash state.
+type c36Entry struct {
+	name   string
+	mode   os.FileMode
+	target string // symlink target
+	data   []byte
+	ino    uint64
+}
+
+type c36Snap map[string][]c36Entry // directory -> entries
+
+func c36TakeSnap(dirs ...string) c36Snap {
+	snap := c36Snap{}
+
+	for _, d := range dirs {
+		ents, err := os.ReadDir(d)
+		if err != nil {
+			continue
+		}
+
+		snap[d] = []c36Entry{}
+
+		for _, e := range ents {
+			p := filepath.Join(d, e.Name())
+
+			st, err := os.Lstat(p)
+			if err != nil {
+				continue
+			}
+
+			en := c36Entry{name: e.Name(), mode: st.Mode()}
+
+			if sys, ok := st.Sys().(*syscall.Stat_t); ok {
+				en.ino = sys.Ino
+			}
+
+			if st.Mode()&os.ModeSymlink != 0 {
+				en.target, _ = os.Readlink(p)
+			} else if st.Mode().IsRegular() {
+				en.data, _ = os.ReadFile(p)
+			}
+
+			snap[d] = append(snap[d], en)
+		}
+	}
+
+	return snap
+}
+
+var c36TempDigits = regexp.MustCompile(`\.langlint-\d+$`)
+
+// hash identifies a post-crash state up to the random suffix of temp-file names.
+func (snap c36Snap) hash() string {
+	var dirs []string
+	for d := range snap {
+		dirs = append(dirs, d)
+	}
+
+	sort.Strings(dirs)
+
+	var parts []any
+
+	for _, d := range dirs {
+		inoIndex := map[uint64]int{}
+
+		for _, en := range snap[d] {
+			if _, ok := inoIndex[en.ino]; !ok {
+				inoIndex[en.ino] = len(inoIndex)
+			}
+
+			parts = append(parts, filepath.Base(d), c36TempDigits.ReplaceAllString(en.name, ".langlint-N"), en.mode.String(), en.target, vh.Hash(string(en.data)), inoIndex[en.ino])
+		}
+	}
+
+	return vh.Hash(parts...)
+}
+
+func (snap c36Snap) restore() error {
+	for d, ents := range snap {
+		_ = os.RemoveAll(d)
+
+		if err := os.MkdirAll(d, 0o755); err != nil {
+			return err
+		}
+
+		first := map[uint64]string{}
+
+		for _, en := range ents {
+			p := filepath.Join(d, en.name)
+
+			switch {
+			case en.mode&os.ModeSymlink != 0:
+				if err := os.Symlink(en.target, p); err != nil {
+					return err
+				}
+			case en.mode.IsRegular():
+				if prev, ok := first[en.ino]; ok && en.ino != 0 {
+					if err := os.Link(prev, p); err != nil {
+						return err
+					}
+
+					continue
+				}
+
+				if err := os.WriteFile(p, en.data, 0o644); err != nil {
+					return err
+				}
+
+				if err := os.Chmod(p, en.mode.Perm()); err != nil {
+					return err
+				}
+
+				first[en.ino] = p
+			}
 		}
 	}
 
@@ -321,7 +496,8 @@ func c36Env() []string {
 	return append(os.Environ(), "GOMAXPROCS=1", "GODEBUG=asyncpreemptoff=1")
 }
 
-// c36Exec runs langlint in dir, under strace when inject/trace is wanted.
+// c36Exec runs langlint in dir; traced (and possibly injected) under strace when logPath is set. A CutWrite shape makes its
+// TRACED runs under RLIMIT_FSIZE (strace -> prlimit -> langlint, so the limit does not apply to the trace log).
 func c36Exec(langlint, dir, logPath string, sh c36Shape, inject string) (*c36Run, error) {
 	args := sh.Args(dir)
 	cwd := filepath.Dir(dir)
@@ -338,7 +514,13 @@ func c36Exec(langlint, dir, logPath string, sh c36Shape, inject string) (*c36Run
 			sargs = append(sargs, "-e", "inject="+inject)
 		}
 
-		sargs = append(sargs, "-o", logPath, langlint)
+		sargs = append(sargs, "-o", logPath)
+
+		if sh.CutWrite && sh.fsize > 0 {
+			sargs = append(sargs, "prlimit", fmt.Sprintf("--fsize=%d", sh.fsize))
+		}
+
+		sargs = append(sargs, langlint)
 		cmd = exec.Command("strace", append(sargs, args...)...)
 	} else {
 		cmd = exec.Command(langlint, args...)
@@ -395,46 +577,146 @@ func c36Shapes() []c36Shape {
 
 	var big bytes.Buffer
 
-	big.WriteString("# large file: well above any buffer size so that the temp file needs as many write calls as the runtime issues\n[big]\n")
+	big.WriteString("# large file\n[big]\n")
 
 	for i := 20000; i > 0; i-- {
 		fmt.Fprintf(&big, "key.%06d=message number %d with some padding text to make the line longer {{n}}\n", i, i)
+	}
+
+	var medium bytes.Buffer
+
+	medium.WriteString("[m]\n")
+
+	for i := 600; i > 0; i-- {
+		fmt.Fprintf(&medium, "k%04d=text %d\n", i, i)
 	}
 
 	abs := func(f string) func(string) []string {
 		return func(dir string) []string { return []string{filepath.Join(dir, f)} }
 	}
 
+	one := []string{"messages_xx.txt"}
+	longJunk := bytes.Repeat([]byte("STALE-BYTES-THAT-MUST-NEVER-REACH-THE-MESSAGE-FILE\n"), 400)
+
 	return []c36Shape{
-		{Name: "small-0644", Files: []string{"messages_xx.txt"}, Content: [][]byte{small}, Mode: 0o644, Args: abs("messages_xx.txt")},
-		{Name: "large-0644", Files: []string{"messages_xx.txt"}, Content: [][]byte{big.Bytes()}, Mode: 0o644, Args: abs("messages_xx.txt")},
-		{Name: "readonly-0444", Files: []string{"messages_xx.txt"}, Content: [][]byte{small}, Mode: 0o444, Args: abs("messages_xx.txt")},
-		{Name: "private-0600", Files: []string{"messages_xx.txt"}, Content: [][]byte{small}, Mode: 0o600, Args: abs("messages_xx.txt")},
-		{Name: "exec-0755-relative", Files: []string{"messages_xx.txt"}, Content: [][]byte{small}, Mode: 0o755, Relative: true,
+		{Name: "small-0644", Files: one, Content: [][]byte{small}, Mode: 0o644, Args: abs("messages_xx.txt")},
+		{Name: "large-0644", Files: one, Content: [][]byte{big.Bytes()}, Mode: 0o644, Args: abs("messages_xx.txt")},
+		{Name: "symlink-same-dir", Files: one, Content: [][]byte{medium.Bytes()}, Mode: 0o444, Link: "symlink-same-dir", Args: abs("messages_xx.txt")},
+		{Name: "symlink-other-dir", Files: one, Content: [][]byte{small}, Mode: 0o640, Link: "symlink-other-dir", Args: abs("messages_xx.txt")},
+		{Name: "hardlink", Files: one, Content: [][]byte{medium.Bytes()}, Mode: 0o644, Link: "hardlink", Args: abs("messages_xx.txt")},
+		{Name: "unrelated-temp-like-files", Files: one, Content: [][]byte{small}, Mode: 0o644, Args: abs("messages_xx.txt"),
+			Extra: map[string][]byte{"messages_yy.txt.langlint-123": []byte("temp of another file\n"), "messages_xx.txt.bak": longJunk, "messages_xx.txt~": []byte("editor backup\n"),
+				".messages_xx.txt.swp": []byte("swap\n"), "notes.langlint-bak": []byte("not ours\n"), "messages_xx.txt.tmp": longJunk, "messages_xx.txtx.langlint-1": []byte("x\n")}},
+		{Name: "stale-files-from-earlier-crash", Files: one, Content: [][]byte{small}, Mode: 0o644, Args: abs("messages_xx.txt"),
+			Stale: map[string][]byte{"messages_xx.txt.langlint-777": longJunk, "messages_xx.txt.langlint-bak": longJunk, "messages_xx.txt.langlint-0000000000": []byte("[old]\nshort=1\n")}},
+		{Name: "write-cut-in-two", Files: one, Content: [][]byte{medium.Bytes()}, Mode: 0o644, CutWrite: true, Args: abs("messages_xx.txt")},
+		{Name: "readonly-0444", Files: one, Content: [][]byte{small}, Mode: 0o444, Args: abs("messages_xx.txt")},
+		{Name: "private-0600", Files: one, Content: [][]byte{small}, Mode: 0o600, Args: abs("messages_xx.txt")},
+		{Name: "exec-0755-relative", Files: one, Content: [][]byte{small}, Mode: 0o755, Relative: true,
 			Args: func(string) []string { return []string{"messages_xx.txt"} }},
 		{Name: "two-files-path-option", Files: []string{"messages_aa.txt", "messages_bb.txt"}, Content: [][]byte{small, append([]byte("[x]\nq=1\nc=2\n"), small...)}, Mode: 0o640,
 			Args: func(dir string) []string { return []string{"-p", dir} }},
 	}
 }
 
+const c36QuickShapes = 8 // the first eight shapes run in the quick tier; thorough runs all twelve
+
+// c36Edits are what happens to the message file between the crash and the next run.
+var c36Edits = []string{"keep", "shorter", "longer"}
+
+func c36Edited(orig []byte, edit string) []byte {
+	switch edit {
+	case "shorter":
+		return []byte("[s]\nzz=2\naa=1\n")
+	case "longer":
+		var b bytes.Buffer
+
+		b.Write(orig)
+
+		if !bytes.HasSuffix(orig, []byte("\n")) {
+			b.WriteByte('\n')
+		}
+
+		b.WriteString("\n[zzz.added]\n")
+
+		for i := 60; i > 0; i-- {
+			fmt.Fprintf(&b, "added.%02d=line %d added after the crash, long enough to make the file clearly longer\n", i, i)
+		}
+
+		return b.Bytes()
+	}
+
+	return orig
+}
+
+// c36Reference formats content with the real binary in a pristine directory.
+func c36Reference(langlint, base string, content []byte) ([]byte, error) {
+	d := filepath.Join(base, "ref")
+	_ = os.RemoveAll(d)
+
+	if err := os.MkdirAll(d, 0o755); err != nil {
+		return nil, err
+	}
+
+	p := filepath.Join(d, "messages_ref.txt")
+	if err := os.WriteFile(p, content, 0o644); err != nil {
+		return nil, err
+	}
+
+	cmd := exec.Command(langlint, p)
+	cmd.Env = c36Env()
+
+	if out, err := cmd.CombinedOutput(); err != nil {
+		return nil, fmt.Errorf("reference run failed: %v: %s", err, out)
+	}
+
+	if l := c36List(d); len(l) != 1 {
+		return nil, fmt.Errorf("reference run left %v", l)
+	}
+
+	return os.ReadFile(p)
+}
+
+type c36Ctx struct {
+	t          *testing.T
+	r          *vh.Report
+	langlint   string
+	base, dir  string
+	logPath    string
+	sh         c36Shape
+	formatted  [][]byte            // Format(original) per file
+	expected   map[string][][]byte // edit -> Format(edited content) per file
+	initial    []string            // names in dir right after set-up
+	final      []string            // names expected after a successful run (initial minus stale files)
+	store      []string            // names in the link-target directory (symlink-other-dir)
+	baseSigs   []string
+	covered    []int
+	statesSeen map[string]bool
+}
+
 func TestC36(t *testing.T) {
 	r := vh.New("C36", "crashpoints")
 	r.Exhaustive = true
-	r.Rule = "crash point = entry to the k-th file-system system call (of the traced set) that touches the message directory, k enumerated from the " +
-		"uninjected strace of the same rewrite; case = (file shape, k); distinct = distinct (shape, call signature, ordinal); non-trivial = the kill " +
-		"really fired at that call (read back from the injected run's trace) and at least the message file had been opened"
+	r.Rule = "crash point = entry to the k-th file-system system call (of the traced set) that touches the message directory, k enumerated per file shape from the " +
+		"uninjected strace of that shape's rewrite; shapes: regular files (small, 1.7 MB, read-only), a symbolic link to a file in the same / another directory, a hard-linked " +
+		"file, a directory with unrelated files named like temporaries, a directory with stale temp/backup files of an earlier crash, a rewrite whose temp-file write is cut in " +
+		"two by RLIMIT_FSIZE (kill between the partial and the second write); history = (shape, k, edit of the file after the crash: keep/shorter/longer) followed by two " +
+		"uninjected runs; distinct = distinct (shape, call signature, ordinal[, edit]); non-trivial = the kill really fired at that call (read back from the injected run's trace)"
 	r.Assume("strace -e inject=<call>:signal=SIGKILL aborts the call on entry (the directory state is checked against a replay of the completed calls of the same trace)")
 	r.Assume("crash = process death between two system calls; power loss with unflushed page cache is not modelled")
+	r.Assume("Format(content) for the re-run oracle is what the same langlint binary writes for that content in a pristine directory")
 
 	langlint := filepath.Join(os.Getenv("VERIF_BIN"), "langlint")
 	if _, err := os.Stat(langlint); err != nil {
 		t.Fatalf("langlint binary missing: %v", err)
 	}
 
-	if _, err := exec.LookPath("strace"); err != nil {
-		r.Inconcl("strace not installed")
-		_ = r.Write()
-		t.Fatal("strace not installed: C36 cannot observe anything")
+	for _, tool := range []string{"strace", "prlimit"} {
+		if _, err := exec.LookPath(tool); err != nil {
+			r.Inconcl(tool + " not installed")
+			_ = r.Write()
+			t.Fatalf("%s not installed: C36 cannot observe anything", tool)
+		}
 	}
 
 	arena := os.Getenv("VERIF_ARENA")
@@ -453,7 +735,7 @@ func TestC36(t *testing.T) {
 	}
 
 	if vh.Tier() != "thorough" && only.Shape == "" {
-		shapes = shapes[:4] // quick = thorough apart from shapes: the four single-file shapes
+		shapes = shapes[:c36QuickShapes]
 	}
 
 	var wg sync.WaitGroup
@@ -496,72 +778,126 @@ func c36RunShape(t *testing.T, r *vh.Report, langlint, base string, sh c36Shape)
 		return
 	}
 
-	dir := filepath.Join(base, "msgs")
-	logPath := filepath.Join(base, "trace.log")
+	c := &c36Ctx{t: t, r: r, langlint: langlint, base: base, dir: filepath.Join(base, "msgs"), logPath: filepath.Join(base, "trace.log"), sh: sh,
+		expected: map[string][][]byte{}, statesSeen: map[string]bool{}}
 
-	// --- 1. baseline: uninjected traced run
-	if err := c36Setup(dir, sh); err != nil {
-		t.Errorf("setup: %v", err)
+	// --- 0. reference results of the real binary on pristine directories
+	for _, edit := range c36Edits {
+		for i := range sh.Files {
+			ref, err := c36Reference(langlint, base, c36Edited(sh.Content[i], edit))
+			if err != nil {
+				t.Errorf("shape %s: %v", sh.Name, err)
 
-		return
+				return
+			}
+
+			c.expected[edit] = append(c.expected[edit], ref)
+		}
 	}
 
-	baseRun, err := c36Exec(langlint, dir, logPath, sh, "")
-	if err != nil || baseRun.rc != 0 || baseRun.killed {
-		t.Errorf("baseline run of %s failed: %v rc=%d out=%s", sh.Name, err, baseRun.rc, baseRun.out)
+	c.formatted = c.expected["keep"]
 
-		return
-	}
-
-	formatted := make([][]byte, len(sh.Files))
-
-	for i, f := range sh.Files {
-		formatted[i], _ = os.ReadFile(filepath.Join(dir, f))
-		if bytes.Equal(formatted[i], sh.Content[i]) {
-			t.Errorf("shape %s: file %s is not changed by formatting", sh.Name, f)
+	for i := range sh.Files {
+		if bytes.Equal(c.formatted[i], sh.Content[i]) {
+			t.Errorf("shape %s: file %d is not changed by formatting", sh.Name, i)
 
 			return
 		}
 	}
 
-	if l := c36List(dir); strings.Join(l, ",") != strings.Join(sh.Files, ",") {
-		// a clean run that leaves files behind is itself a violation of the second half of the property
-		r.Violate(vh.Violation{Key: "stale-files-after-clean-run", Desc: fmt.Sprintf("uninterrupted rewrite left %v", l), Case: map[string]any{"shape": sh.Name}})
+	if sh.CutWrite {
+		c.sh.fsize = int64(len(c.formatted[0]) / 2)
+		sh = c.sh
 	}
 
-	baseSigs := c36RelevantSigs(baseRun.calls)
-	K := len(baseSigs)
+	// --- 1. baseline: uninjected traced run of THIS shape
+	if err := c36Setup(c.dir, sh); err != nil {
+		t.Errorf("setup: %v", err)
 
-	if K < 6 {
-		t.Errorf("shape %s: baseline trace lists only %d calls: %v", sh.Name, K, baseSigs)
+		return
+	}
+
+	c.initial = c36List(c.dir)
+	c.store = c36List(c36StoreDir(c.dir))
+
+	for _, n := range c.initial {
+		if _, stale := sh.Stale[n]; !stale {
+			c.final = append(c.final, n)
+		}
+	}
+
+	baseRun, err := c36Exec(langlint, c.dir, c.logPath, sh, "")
+
+	wantRC := 0
+	if sh.CutWrite {
+		wantRC = 1 // the write fails with EFBIG: langlint reports the error and must leave the file alone
+	}
+
+	if err != nil || baseRun.rc != wantRC || baseRun.killed {
+		t.Errorf("baseline run of %s failed: %v rc=%d out=%s", sh.Name, err, baseRun.rc, baseRun.out)
+
+		return
+	}
+
+	for i, f := range sh.Files {
+		got, _ := os.ReadFile(filepath.Join(c.dir, f))
+
+		want := c.formatted[i]
+		if sh.CutWrite {
+			want = sh.Content[i]
+		}
+
+		if !bytes.Equal(got, want) {
+			r.Violate(vh.Violation{Key: "clean-run-wrong-content", Desc: fmt.Sprintf("uninterrupted run (shape %s, exit %d): %s does not hold the expected content", sh.Name, baseRun.rc, f),
+				Case: map[string]any{"shape": sh.Name}, Expected: vh.Trunc(string(want), 200), Observed: vh.Trunc(string(got), 200)})
+		}
+	}
+
+	wantNames := c.final
+	if sh.CutWrite {
+		wantNames = c.initial
+	}
+
+	if l := c36List(c.dir); strings.Join(l, ",") != strings.Join(wantNames, ",") {
+		// a clean run that leaves files behind is itself a violation of the second half of the property
+		r.Violate(vh.Violation{Key: "stale-files-after-clean-run", Desc: fmt.Sprintf("uninterrupted run (shape %s) left %v, expected %v", sh.Name, l, wantNames), Case: map[string]any{"shape": sh.Name}})
+	}
+
+	c.baseSigs = c36RelevantSigs(baseRun.calls)
+	K := len(c.baseSigs)
+
+	if K < 3 {
+		t.Errorf("shape %s: baseline trace lists only %d calls: %v", sh.Name, K, c.baseSigs)
 
 		return
 	}
 
 	r.Count("baseline.points:"+sh.Name, int64(K))
-	r.Note(fmt.Sprintf("%s: baseline call sequence (%d crash points): %s", sh.Name, K, strings.Join(baseSigs, " ")))
+	r.Note(fmt.Sprintf("%s: baseline call sequence (%d crash points): %s", sh.Name, K, strings.Join(c.baseSigs, " ")))
 
-	// per syscall name: how many calls of that name the whole process made (upper bound for when=)
-	// and how many of them precede the first call on the message directory: those are made by the runtime's
-	// start-up on the main thread, so when=N with N <= that number always fires there and is useless.
+	// per syscall name: how many calls of that name the whole process made (upper bound for when=) and how many of them
+	// precede the first call on the message directory: those are made by the start-up on the main thread, so when=N with
+	// N <= that number always fires there and is useless.
 	total := map[string]int{}
 	startup := map[string]int{}
 	needNames := map[string]bool{}
 	seen := false
 
-	for _, c := range baseRun.calls {
-		total[c.Name]++
+	for _, sc := range baseRun.calls {
+		total[sc.Name]++
 
-		if c.Relevant {
-			needNames[c.Name] = true
+		if sc.Relevant {
+			needNames[sc.Name] = true
 			seen = true
 		} else if !seen {
-			startup[c.Name]++
+			startup[sc.Name]++
 		}
 	}
 
 	// one directed kill before the first file call (state must be the untouched original)
-	c36Inject(t, r, langlint, dir, logPath, sh, formatted, baseSigs, make([]int, K), "openat:signal=SIGKILL:when=1")
+	c.covered = make([]int, K)
+	c.inject("openat:signal=SIGKILL:when=1")
+	c.covered = make([]int, K)
 
 	names := make([]string, 0, len(needNames))
 	for n := range needNames {
@@ -570,11 +906,10 @@ func c36RunShape(t *testing.T, r *vh.Report, langlint, base string, sh c36Shape)
 
 	sort.Strings(names)
 
-	covered := make([]int, K) // hits per crash point
 	uncovered := func() int {
 		n := 0
 
-		for _, h := range covered {
+		for _, h := range c.covered {
 			if h == 0 {
 				n++
 			}
@@ -591,8 +926,8 @@ func c36RunShape(t *testing.T, r *vh.Report, langlint, base string, sh c36Shape)
 				// skip (name, n) pairs that cannot help any more: every point with this call name is covered
 				need := false
 
-				for k, s := range baseSigs {
-					if covered[k] == 0 && strings.HasPrefix(s, name) {
+				for k, s := range c.baseSigs {
+					if c.covered[k] == 0 && strings.HasPrefix(s, name) {
 						need = true
 					}
 				}
@@ -601,14 +936,14 @@ func c36RunShape(t *testing.T, r *vh.Report, langlint, base string, sh c36Shape)
 					continue
 				}
 
-				c36Inject(t, r, langlint, dir, logPath, sh, formatted, baseSigs, covered, fmt.Sprintf("%s:signal=SIGKILL:when=%d", name, n))
+				c.inject(fmt.Sprintf("%s:signal=SIGKILL:when=%d", name, n))
 			}
 		}
 	}
 
-	for k, h := range covered {
+	for k, h := range c.covered {
 		if h == 0 {
-			r.Inconcl(fmt.Sprintf("%s: crash point %d (%s) was never hit in %d sweeps", sh.Name, k+1, baseSigs[k], maxSweeps))
+			r.Inconcl(fmt.Sprintf("%s: crash point %d (%s) was never hit in %d sweeps", sh.Name, k+1, c.baseSigs[k], maxSweeps))
 			c36NotExhaustive.Store(true)
 		}
 	}
@@ -616,17 +951,19 @@ func c36RunShape(t *testing.T, r *vh.Report, langlint, base string, sh c36Shape)
 	r.Count("points.covered:"+sh.Name, int64(K-uncovered()))
 }
 
-// c36Inject makes one injected run and evaluates the oracle on it.
-func c36Inject(t *testing.T, r *vh.Report, langlint, dir, logPath string, sh c36Shape, formatted [][]byte, baseSigs []string, covered []int, inject string) {
+// inject makes one injected run and evaluates the oracles on it.
+func (c *c36Ctx) inject(inject string) {
+	r, sh, dir := c.r, c.sh, c.dir
+
 	if err := c36Setup(dir, sh); err != nil {
-		t.Errorf("setup: %v", err)
+		c.t.Errorf("setup: %v", err)
 
 		return
 	}
 
-	run, err := c36Exec(langlint, dir, logPath, sh, inject)
+	run, err := c36Exec(c.langlint, dir, c.logPath, sh, inject)
 	if err != nil {
-		t.Errorf("strace: %v", err)
+		c.t.Errorf("strace: %v", err)
 
 		return
 	}
@@ -642,8 +979,8 @@ func c36Inject(t *testing.T, r *vh.Report, langlint, dir, logPath string, sh c36
 	// which call was hit: the (single) call that never returned
 	hit := -1
 
-	for i, c := range run.calls {
-		if c.Killed {
+	for i, sc := range run.calls {
+		if sc.Killed {
 			if hit >= 0 {
 				r.Count("runs.ambiguous-trace", 1)
 
@@ -670,13 +1007,11 @@ func c36Inject(t *testing.T, r *vh.Report, langlint, dir, logPath string, sh c36
 		} else {
 			r.Count("kills.at-unrelated-call", 1)
 		}
-	} else {
+	} else if k >= len(c.baseSigs) || run.calls[hit].Sig != c.baseSigs[k] || strings.Join(doneSigs, " ") != strings.Join(c.baseSigs[:k], " ") {
 		// the run must have followed the baseline sequence up to and including the hit call
-		if k >= len(baseSigs) || run.calls[hit].Sig != baseSigs[k] || strings.Join(doneSigs, " ") != strings.Join(baseSigs[:k], " ") {
-			r.Inconcl(fmt.Sprintf("%s: injected run diverged from the baseline sequence at call %d: %v + %s", sh.Name, k+1, doneSigs, run.calls[hit].Sig))
+		r.Inconcl(fmt.Sprintf("%s: injected run diverged from the baseline sequence at call %d: %v + %s", sh.Name, k+1, doneSigs, run.calls[hit].Sig))
 
-			return
-		}
+		return
 	}
 
 	window := c36Window(done)
@@ -689,7 +1024,7 @@ func c36Inject(t *testing.T, r *vh.Report, langlint, dir, logPath string, sh c36
 	caseDoc := map[string]any{"shape": sh.Name, "inject": inject, "crash_point": point, "window": window, "completed_calls": doneSigs}
 
 	// sanity of the instrument: replay the completed mutating calls of THIS trace over the initial listing
-	if want, ok := c36Predict(sh, done, dir); ok {
+	if want, ok := c36Predict(c.initial, done, dir, sh.Relative); ok {
 		if got := c36List(dir); strings.Join(got, ",") != strings.Join(want, ",") {
 			r.Inconcl(fmt.Sprintf("%s: directory after kill at %s is %v, trace replay predicts %v (instrument mismatch, not a verdict)", sh.Name, point, got, want))
 
@@ -704,17 +1039,17 @@ func c36Inject(t *testing.T, r *vh.Report, langlint, dir, logPath string, sh c36
 	r.Count("window:"+window, 1)
 
 	if run.calls[hit].Relevant {
-		covered[k]++
+		c.covered[k]++
 	}
 
 	after := c36List(dir)
 	caseDoc["dir_after_kill"] = after
 	bad := false
 
-	// --- oracle 1: each message path holds exactly the original or exactly the formatted bytes
+	// --- oracle 1: each message path (resolved through a link) holds exactly the original or exactly the formatted bytes
 	for i, f := range sh.Files {
 		p := filepath.Join(dir, f)
-		st, err := os.Lstat(p)
+		st, err := os.Stat(p)
 
 		var kind, obs string
 
@@ -725,12 +1060,14 @@ func c36Inject(t *testing.T, r *vh.Report, langlint, dir, logPath string, sh c36
 			kind, obs = "not-regular", st.Mode().String()
 		default:
 			b, _ := os.ReadFile(p)
-			if !bytes.Equal(b, sh.Content[i]) && !bytes.Equal(b, formatted[i]) {
-				kind, obs = "wrong-content", fmt.Sprintf("%d bytes, neither original (%d) nor formatted (%d): %q", len(b), len(sh.Content[i]), len(formatted[i]), vh.Trunc(string(b), 120))
-			} else if bytes.Equal(b, formatted[i]) {
+
+			switch {
+			case bytes.Equal(b, c.formatted[i]):
 				r.Count("after-kill.path-holds-formatted", 1)
-			} else {
+			case bytes.Equal(b, sh.Content[i]):
 				r.Count("after-kill.path-holds-original", 1)
+			default:
+				kind, obs = "wrong-content", fmt.Sprintf("%d bytes, neither original (%d) nor formatted (%d): %q", len(b), len(sh.Content[i]), len(c.formatted[i]), vh.Trunc(string(b), 120))
 			}
 		}
 
@@ -744,77 +1081,224 @@ func c36Inject(t *testing.T, r *vh.Report, langlint, dir, logPath string, sh c36
 		}
 	}
 
-	// --- oracle 2: a later uninjected run succeeds and leaves only the message files.
-	// It presupposes a state that oracle 1 accepts; after a lost/corrupt file the violation is already recorded.
+	if e := c.unrelatedChanged(); e != "" {
+		r.Violate(vh.Violation{Key: "unrelated-file-changed", Desc: fmt.Sprintf("kill at %s (shape %s): %s", point, sh.Name, e), Case: caseDoc})
+	}
+
+	// --- oracle 2: crash-then-rerun histories. They presuppose a state that oracle 1 accepts.
 	if bad {
-		r.Count("later-runs.skipped-after-lost-file", 1)
+		r.Count("histories.skipped-after-lost-file", 1)
 
 		return
 	}
 
-	later, err := c36Exec(langlint, dir, "", sh, "")
+	snap := c36TakeSnap(dir, c36StoreDir(dir))
+
+	// In the quick tier a history is started once per distinct post-crash STATE of a shape (names with the random part of
+	// temp names masked, contents, modes, link structure): crash points that complete no further mutating call leave the
+	// same state, and langlint's behaviour from a given directory state does not depend on how that state was reached.
+	// The thorough tier starts the histories at every crash point.
+	if vh.Tier() != "thorough" {
+		h := snap.hash()
+		if c.statesSeen[h] {
+			r.Count("histories.skipped-identical-post-crash-state", int64(len(c36Edits)))
+
+			return
+		}
+
+		c.statesSeen[h] = true
+		r.Count("histories.distinct-post-crash-states", 1)
+	}
+
+	for _, edit := range c36Edits {
+		if err := snap.restore(); err != nil {
+			c.t.Errorf("restore: %v", err)
+
+			return
+		}
+
+		c.history(edit, window, point, caseDoc)
+	}
+}
+
+// unrelatedChanged checks the files that are none of langlint's business.
+func (c *c36Ctx) unrelatedChanged() string {
+	for name, want := range c.sh.Extra {
+		got, err := os.ReadFile(filepath.Join(c.dir, name))
+		if err != nil {
+			return fmt.Sprintf("unrelated file %s is gone", name)
+		}
+
+		if !bytes.Equal(got, want) {
+			return fmt.Sprintf("unrelated file %s changed", name)
+		}
+	}
+
+	if got := c36List(c36StoreDir(c.dir)); strings.Join(got, ",") != strings.Join(c.store, ",") {
+		return fmt.Sprintf("the directory the link points into now holds %v (was %v)", got, c.store)
+	}
+
+	return ""
+}
+
+// history: from the restored post-crash state, edit the message file, run langlint to completion, run it a third time.
+func (c *c36Ctx) history(edit, window, point string, crashDoc map[string]any) {
+	r, sh, dir := c.r, c.sh, c.dir
+
+	doc := map[string]any{"edit": edit}
+	for k, v := range crashDoc {
+		doc[k] = v
+	}
+
+	expected := make([][]byte, len(sh.Files))
+
+	for i, f := range sh.Files {
+		p := filepath.Join(dir, f)
+
+		if edit != "keep" {
+			// written through the path, as an editor that saves in place would (follows a link, keeps the inode)
+			if err := os.WriteFile(p, c36Edited(sh.Content[i], edit), 0o644); err != nil {
+				c.t.Errorf("edit: %v", err)
+
+				return
+			}
+		}
+
+		expected[i] = c.expected[edit][i]
+	}
+
+	r.Eval(sh.Name+"/"+point+"/"+edit, true)
+	r.Count("histories", 1)
+	r.Count("histories.edit:"+edit, 1)
+
+	plain := sh
+	plain.CutWrite = false
+
+	run2, err := c36Exec(c.langlint, dir, "", plain, "")
 	if err != nil {
-		t.Errorf("later run: %v", err)
+		c.t.Errorf("second run: %v", err)
 
 		return
 	}
 
-	r.Count("later-runs", 1)
-
-	if later.rc != 0 {
-		r.Violate(vh.Violation{Key: "later-run-fails:" + window, Desc: fmt.Sprintf("after a kill at %s (shape %s) the next langlint run fails rc=%d: %s", point, sh.Name, later.rc, vh.Trunc(later.out, 300)),
-			Case: caseDoc, Expected: "rc=0", Observed: later.rc})
+	if run2.rc != 0 {
+		r.Violate(vh.Violation{Key: "rerun-fails:" + window + ":" + edit, Desc: fmt.Sprintf("after a kill at %s (shape %s, file then %s) the next langlint run fails rc=%d: %s", point, sh.Name, edit, run2.rc, vh.Trunc(run2.out, 300)),
+			Case: doc, Expected: "rc=0", Observed: run2.rc})
 
 		return
 	}
 
 	for i, f := range sh.Files {
 		b, _ := os.ReadFile(filepath.Join(dir, f))
-		if !bytes.Equal(b, formatted[i]) {
-			r.Violate(vh.Violation{Key: "later-run-wrong-content:" + window, Desc: fmt.Sprintf("after a kill at %s (shape %s) and a successful later run %s does not hold the formatted content", point, sh.Name, f),
-				Case: caseDoc, Expected: "formatted content", Observed: vh.Trunc(string(b), 200)})
+		if !bytes.Equal(b, expected[i]) {
+			r.Violate(vh.Violation{Key: "rerun-wrong-content:" + window + ":" + edit,
+				Desc: fmt.Sprintf("kill at %s (shape %s), file then %s, langlint run to completion: %s holds %d bytes, Format(content before the run) is %d bytes; first difference at byte %d",
+					point, sh.Name, edit, f, len(b), len(expected[i]), c36FirstDiff(b, expected[i])),
+				Case: doc, Expected: vh.Trunc(string(expected[i]), 300), Observed: vh.Trunc(string(b), 300)})
+		} else {
+			r.Count("histories.content-is-Format(current)", 1)
 		}
 	}
 
 	final := c36List(dir)
-	if strings.Join(final, ",") == strings.Join(sh.Files, ",") {
-		r.Count("later-runs.directory-clean", 1)
+	if strings.Join(final, ",") == strings.Join(c.final, ",") {
+		r.Count("histories.directory-clean", 1)
+	} else {
+		kinds := map[string][]string{}
+		have := map[string]bool{}
+
+		for _, n := range final {
+			have[n] = true
+		}
+
+		want := map[string]bool{}
+
+		for _, n := range c.final {
+			want[n] = true
+
+			if !have[n] {
+				kinds["expected-file-removed"] = append(kinds["expected-file-removed"], n)
+			}
+		}
+
+		for _, n := range final {
+			if want[n] {
+				continue
+			}
+
+			key := map[string]string{"T.tmp": "stale-temp-after-success", "T.bak": "stale-backup-after-success"}[c36Role(filepath.Join(dir, n), dir, dir, sh.Files)]
+			if key == "" {
+				key = "stale-other-after-success"
+			}
+
+			kinds[key] = append(kinds[key], n)
+		}
+
+		for key, files := range kinds {
+			r.Violate(vh.Violation{Key: key, Desc: fmt.Sprintf("kill at %s (window %s, shape %s), file then %s, then a successful uninjected langlint run: %v (directory holds %v, expected %v)", point, window, sh.Name, edit, files, final, c.final),
+				Case: doc, Expected: c.final, Observed: final})
+		}
+	}
+
+	if e := c.unrelatedChanged(); e != "" {
+		r.Violate(vh.Violation{Key: "unrelated-file-changed", Desc: fmt.Sprintf("kill at %s (shape %s), file then %s, successful run: %s", point, sh.Name, edit, e), Case: doc})
+	}
+
+	// third run: nothing left to do
+	before := make([][]byte, len(sh.Files))
+	for i, f := range sh.Files {
+		before[i], _ = os.ReadFile(filepath.Join(dir, f))
+	}
+
+	run3, err := c36Exec(c.langlint, dir, "", plain, "")
+	if err != nil {
+		c.t.Errorf("third run: %v", err)
 
 		return
 	}
 
-	kinds := map[string][]string{}
+	changed := false
 
-	for _, n := range final {
-		role := c36Role(filepath.Join(dir, n), dir, dir, sh.Files)
-		if role == "T" {
-			continue
+	for i, f := range sh.Files {
+		b, _ := os.ReadFile(filepath.Join(dir, f))
+		if !bytes.Equal(b, before[i]) {
+			changed = true
 		}
-
-		key := map[string]string{"T.tmp": "stale-temp-after-success", "T.bak": "stale-backup-after-success"}[role]
-		if key == "" {
-			key = "stale-other-after-success"
-		}
-
-		kinds[key] = append(kinds[key], n)
 	}
 
-	for key, files := range kinds {
-		r.Violate(vh.Violation{Key: key, Desc: fmt.Sprintf("kill at %s (window %s, shape %s), then a successful uninjected langlint run: directory still holds %v", point, window, sh.Name, files),
-			Case: caseDoc, Expected: sh.Files, Observed: final})
+	if run3.rc != 0 || changed || strings.Contains(run3.out, "reformatted") || strings.Join(c36List(dir), ",") != strings.Join(final, ",") {
+		r.Violate(vh.Violation{Key: "third-run-not-a-no-op:" + edit, Desc: fmt.Sprintf("kill at %s (shape %s), file then %s, two more runs: the third run rc=%d output %q bytes-changed=%v", point, sh.Name, edit, run3.rc, vh.Trunc(run3.out, 200), changed),
+			Case: doc})
+	} else {
+		r.Count("histories.third-run-no-change", 1)
 	}
+}
+
+func c36FirstDiff(a, b []byte) int {
+	n := len(a)
+	if len(b) < n {
+		n = len(b)
+	}
+
+	for i := 0; i < n; i++ {
+		if a[i] != b[i] {
+			return i
+		}
+	}
+
+	return n
 }
 
 // c36Predict replays the completed mutating calls of a trace over the initial
 // directory listing (names only; temp names are taken from the trace).
-func c36Predict(sh c36Shape, done []scall, dir string) ([]string, bool) {
+func c36Predict(initial []string, done []scall, dir string, relative bool) ([]string, bool) {
 	set := map[string]bool{}
-	for _, f := range sh.Files {
+	for _, f := range initial {
 		set[f] = true
 	}
 
 	cwd := filepath.Dir(dir)
-	if sh.Relative {
+	if relative {
 		cwd = dir
 	}
 
